@@ -1,6 +1,9 @@
 from .common import *
 def run(tier, a=None):
     specs = [{'src': 'h_c01.cpp', 'defs': ['TAG=' + t]} for t in tags(tier)]
+    import props.common as pc
+    _o = pc.opts
+    pc.opts = lambda tier, a=None: dict(_o(tier, a), approx_ok=False)
     return simple('C01', tier, a, specs,
         'EXACT: for symbolic unit X, Y and point p, every entry of the documented homogeneous matrix of the coefficients returned by compose/inverse/Identity/act equals the matrix product / identity / M(X)(p;1); decided per entry by solver-checked stepwise normalisation over the DAG recorded from the real templates.',
         ['no magnitude bound (real arithmetic)', 'paths per call <= 64 (none truncated)', 'groups: ' + ','.join(tags(tier))])
